@@ -1,7 +1,9 @@
 #!/usr/bin/env python3
 """Run a check against a mutant of /repo without touching /repo.
 
-usage: tools/mutant.py <ID> <patch> [check args...]
+usage: [PENDING=fix1.patch,fix2.patch] tools/mutant.py <ID> <patch>[,<patch>...] [check args...]
+
+Patches named in $PENDING (pending repairs of /repo) are applied first.
 
 The patch (unified diff, -p1 relative to /repo) is applied to copies of the
 files it names under a scratch directory; the copies are handed to the Go
@@ -13,13 +15,17 @@ ROOT = os.path.dirname(os.path.dirname(os.path.abspath(__file__)))
 REPO = "/repo"
 
 def main():
-    pid, patch = sys.argv[1], os.path.abspath(sys.argv[2])
+    pid = sys.argv[1]
+    patches = [os.path.abspath(x) for x in sys.argv[2].split(",") if x]
+    if os.environ.get("PENDING"):
+        patches = [os.path.abspath(x) for x in os.environ["PENDING"].split(",") if x] + patches
     extra = sys.argv[3:]
     files = []
-    for line in open(patch):
-        m = re.match(r"^\+\+\+ (?:b/)?(\S+)", line)
-        if m and m.group(1) != "/dev/null":
-            files.append(m.group(1))
+    for patch in patches:
+        for line in open(patch):
+            m = re.match(r"^\+\+\+ (?:b/)?(\S+)", line)
+            if m and m.group(1) != "/dev/null" and m.group(1) not in files:
+                files.append(m.group(1))
     tmp = tempfile.mkdtemp(prefix="verif-mut-")
     try:
         for f in files:
@@ -27,10 +33,11 @@ def main():
             os.makedirs(os.path.dirname(dst), exist_ok=True)
             if os.path.exists(os.path.join(REPO, f)):
                 shutil.copy(os.path.join(REPO, f), dst)
-        p = subprocess.run(["patch", "-p1", "-s", "-i", patch], cwd=tmp)
-        if p.returncode != 0:
-            print("MUTANT-PATCH-FAILED", patch)
-            return 3
+        for patch in patches:
+            p = subprocess.run(["patch", "-p1", "-s", "-i", patch], cwd=tmp)
+            if p.returncode != 0:
+                print("MUTANT-PATCH-FAILED", patch)
+                return 3
         overlay = {"Replace": {os.path.join(REPO, f): os.path.join(tmp, f) for f in files}}
         ov = os.path.join(tmp, "overlay.json")
         json.dump(overlay, open(ov, "w"))
